@@ -180,7 +180,14 @@ pub fn expand_templates(
             })
         })
         .collect();
-    expand(&mut toplevels, &templates, lsp_hints)?;
+    let mut expanded_exprs_left = MAX_EXPANDED_EXPRS;
+    expand(
+        &mut toplevels,
+        &templates,
+        lsp_hints,
+        0,
+        &mut expanded_exprs_left,
+    )?;
 
     toplevels.into_iter().try_fold(vec![], |mut tls, tl| {
         tls.push(match &tl {
@@ -202,10 +209,39 @@ struct Replacement {
     insert_index: usize,
 }
 
-fn expand(exprs: &mut Vec<SExpr>, templates: &[Template], _lsp_hints: &mut LspHints) -> Result<()> {
-    // An expansion can produce further expansions. A template can be made to expand to itself,
-    // e.g. by passing `t!` as a parameter, and would then never stop expanding.
-    const MAX_EXPANSION_PASSES: usize = 100;
+// An expansion can produce further expansions. A template can be made to expand to itself, e.g. by
+// passing `t!` as a parameter, and would then never stop expanding: in place, ever deeper, or into
+// ever more or ever larger expansions. The limits below make expansion fail instead.
+const MAX_EXPANSION_PASSES: usize = 100;
+const MAX_EXPANSION_NESTING: usize = super::sexpr::MAX_LIST_NESTING;
+const MAX_EXPANDED_EXPRS: usize = 1_000_000;
+
+/// Number of atoms and lists in `exprs`, at all levels.
+fn count_exprs(exprs: &[SExpr]) -> usize {
+    let mut count = 0usize;
+    let mut unvisited = vec![exprs];
+    while let Some(exprs) = unvisited.pop() {
+        count = count.saturating_add(exprs.len());
+        unvisited.extend(exprs.iter().filter_map(|expr| match expr {
+            SExpr::Atom(_) => None,
+            SExpr::List(l) => Some(l.t.as_slice()),
+        }));
+    }
+    count
+}
+
+fn expand(
+    exprs: &mut Vec<SExpr>,
+    templates: &[Template],
+    _lsp_hints: &mut LspHints,
+    nesting: usize,
+    expanded_exprs_left: &mut usize,
+) -> Result<()> {
+    if nesting > MAX_EXPANSION_NESTING {
+        bail!(
+            "template expansion nests lists more than {MAX_EXPANSION_NESTING} levels deep; a template probably expands to itself"
+        );
+    }
     let mut replacements: Vec<Replacement> = vec![];
     for pass in 0.. {
         if pass >= MAX_EXPANSION_PASSES {
@@ -221,7 +257,13 @@ fn expand(exprs: &mut Vec<SExpr>, templates: &[Template], _lsp_hints: &mut LspHi
                         l.t.first().and_then(|expr| expr.atom(None)),
                         Some("template-expand") | Some("t!")
                     ) {
-                        expand(&mut l.t, templates, _lsp_hints)?;
+                        expand(
+                            &mut l.t,
+                            templates,
+                            _lsp_hints,
+                            nesting + 1,
+                            expanded_exprs_left,
+                        )?;
                         continue;
                     }
 
@@ -296,6 +338,16 @@ fn expand(exprs: &mut Vec<SExpr>, templates: &[Template], _lsp_hints: &mut LspHi
 
                     while evaluate_conditionals(&mut expanded_template)? {}
 
+                    *expanded_exprs_left = match expanded_exprs_left
+                        .checked_sub(count_exprs(&expanded_template).saturating_add(1))
+                    {
+                        Some(left) => left,
+                        None => bail_span!(
+                            l,
+                            "template expansion produces more than {MAX_EXPANDED_EXPRS} expressions; a template probably expands to itself"
+                        ),
+                    };
+
                     replacements.push(Replacement {
                         insert_index: expr_index,
                         exprs: expanded_template,
@@ -306,24 +358,23 @@ fn expand(exprs: &mut Vec<SExpr>, templates: &[Template], _lsp_hints: &mut LspHi
 
         // Ensure replacements are sorted. They probably are, but may as well make sure.
         replacements.sort_by_key(|r| r.insert_index);
-        // Must replace last-first to keep unreplaced insertion points stable.
-        // perf_2 : could construct vec in one pass.
-        for replacement in replacements.iter().rev() {
-            let (before, after) = exprs.split_at(replacement.insert_index);
-            let after = after.iter().skip(1); // first element is `(template-expand ...)`
-            let new_vec = before
-                .iter()
-                .cloned()
-                .chain(replacement.exprs.iter().cloned())
-                .chain(after.cloned())
-                .collect();
-            *exprs = new_vec;
-        }
-
+        // Build the new list in one pass: splicing the replacements in one at a time takes time
+        // quadratic in the number of replacements.
         if replacements.is_empty() {
             break;
         }
-        replacements.clear();
+        let mut unused_replacements = replacements.drain(..).peekable();
+        let mut new_exprs = Vec::with_capacity(exprs.len());
+        for (expr_index, expr) in std::mem::take(exprs).into_iter().enumerate() {
+            // `expr` is the `(template-expand ...)` when a replacement is to be inserted here.
+            match unused_replacements.next_if(|r| r.insert_index == expr_index) {
+                Some(replacement) => new_exprs.extend(replacement.exprs),
+                None => new_exprs.push(expr),
+            }
+        }
+        drop(unused_replacements);
+        *exprs = new_exprs;
+
     }
 
     Ok(())
